@@ -3,7 +3,8 @@
    check.py <property id> --replay <file>    re-run one recorded case on model and implementation
 
 exit 0: the property held on everything explored (KNOWN-FINDING lines may be printed)
-exit 1: a line `VIOLATION property=<id> replay=<path>` was printed
+exit 1: a line `VIOLATION property=<id> replay=<path>` was printed (with ` no-failing-input-found` appended when a proof
+        obligation or a correspondence no longer checks — including a harness that no longer builds — and no input was found)
 Honours VERIF_SEED.  Rewrites /verif/evidence/<id>.json on every run."""
 import importlib
 import os
@@ -35,12 +36,17 @@ def main():
     ctx = vlib.Ctx(pid, tier, seed)
     try:
         mod.run(ctx)
-    except Exception:
-        # a crash of the machinery itself is never reported as a property violation
+    except Exception as e:
+        # The machinery could not be applied to the tree that is there (a harness that no longer compiles against the
+        # headers, a translator or driver that fails): the property is then not shown to hold.  That is reported the way
+        # the brief asks for a tie that no longer checks and for which no failing input was found — the replay file names
+        # what broke — and never as an input on which the property fails.
+        tb = traceback.format_exc()
         traceback.print_exc()
-        ctx.cleanup()
-        print('check machinery failed for %s (this is not a verdict on the property)' % pid)
-        return 2
+        ctx.violation('# the check could not be carried out on the current tree; tie that no longer checks:\n# '
+                      + '\n# '.join(tb.strip().splitlines()[-12:]) + '\n',
+                      'the model/implementation correspondence of %s could not be established on this tree: %s' % (pid, ' '.join(str(e).split())[:300]),
+                      no_input=True)
     return ctx.finish(getattr(mod, 'LEVEL', 'proof'))
 
 
